@@ -218,6 +218,29 @@ def generic_classes(enz_name):
 
 # ------------------------------------------------------------------ records
 
+def _position(kind, value, is_start):
+    """a Biopython position of the given kind whose integer value is `value`:
+    e exact, b before (<5), a after (>5), w within ((5.8)), t between (5^8), o one-of"""
+    from Bio.SeqFeature import ExactPosition, BeforePosition, AfterPosition, WithinPosition, BetweenPosition, OneOfPosition
+
+    if kind == "b":
+        return BeforePosition(value)
+    if kind == "a":
+        return AfterPosition(value)
+    if kind in ("w", "t"):
+        cls = WithinPosition if kind == "w" else BetweenPosition
+        return cls(value, left=value, right=value + 2) if is_start else cls(value, left=max(0, value - 2), right=value)
+    if kind == "o":
+        alt = value + 1 if is_start else max(0, value - 1)
+        return OneOfPosition(value, choices=[ExactPosition(value), ExactPosition(alt)])
+    return ExactPosition(value)
+
+
+def fuzzy_kinds(rng, nparts):
+    """per part a (start kind, end kind) pair, mostly exact"""
+    return [[rng.choice("eeebawto"), rng.choice("eeebawto")] for _ in range(nparts)]
+
+
 def make_record(spec, cls=None):
     """materialised spec -> CircularRecord (fresh objects every call)"""
     boot.boot()
@@ -230,7 +253,9 @@ def make_record(spec, cls=None):
         if f["parts"] is None:
             loc = None       # a feature without a location (Biopython allows it; rotation must leave it alone)
         else:
-            parts = [FeatureLocation(p[0], p[1], p[2], ref=p[3] if len(p) > 3 else None, ref_db=p[4] if len(p) > 4 else None) for p in f["parts"]]
+            fz = f.get("fuzzy") or [None] * len(f["parts"])
+            parts = [FeatureLocation(_position(z[0] if z else "e", p[0], True), _position(z[1] if z else "e", p[1], False), p[2],
+                                     ref=p[3] if len(p) > 3 else None, ref_db=p[4] if len(p) > 4 else None) for p, z in zip(f["parts"], fz)]
             loc = parts[0] if len(parts) == 1 else CompoundLocation(parts)
         feats.append(SeqFeature(loc, type=f["type"], qualifiers={k: list(v) for k, v in f.get("quals", {}).items()}))
     ann = dict(spec.get("annotations", {}))
@@ -239,8 +264,10 @@ def make_record(spec, cls=None):
         for r in spec["refs"]:
             ref = Reference()
             ref.title, ref.authors, ref.journal = r["title"], r["authors"], r["journal"]
-            if r.get("span"):
+            if r.get("span") is True:
                 ref.location = [FeatureLocation(0, len(spec["seq"]))]   # "bases 1 to N", as every parsed GenBank reference has
+            elif r.get("span"):
+                ref.location = [FeatureLocation(a, b) for a, b in r["span"]]   # "bases 120 to 480": a paper about part of the plasmid
             refs.append(ref)
         ann["references"] = refs
     kw = {}
@@ -251,6 +278,28 @@ def make_record(spec, cls=None):
         Seq(spec["seq"]), id=spec.get("id", "rec"), name=spec.get("name", spec.get("id", "rec")),
         description=spec.get("description", "desc"), features=feats, annotations=ann or None,
         dbxrefs=list(spec["dbxrefs"]) if "dbxrefs" in spec else None, **kw)
+
+
+_ANNOTATIONS = {
+    "molecule_type": "DNA", "data_file_division": "SYN", "date": "01-JAN-2020", "accessions": ["X00001"], "sequence_version": 1,
+    "keywords": [""], "source": "synthetic DNA construct", "organism": "synthetic DNA construct", "taxonomy": ["other sequences"],
+    "comment": "made by hand", "gi": "12345",
+}
+
+
+def annotation_variety(*key):
+    """record-wide annotations as parsers and people produce them: none at all, or any subset of the usual GenBank keys
+    (so `source` without `organism`, a date but no division, ...), the topology in any spelling the library accepts.
+    Decided by `key` alone (own random stream)."""
+    import copy
+
+    r = rng_for("annotation-variety", *key)
+    if r.random() < 0.45:
+        return None
+    out = {k: copy.deepcopy(v) for k, v in _ANNOTATIONS.items() if r.random() < 0.45}
+    if r.random() < 0.6:
+        out["topology"] = r.choice(["circular", "circular", "Circular", "CIRCULAR"])
+    return out
 
 
 def rand_feature_parts(rng, n, kind=None, strand="any"):
